@@ -277,8 +277,30 @@ def r3_isolation(ctx, chk, rec_t, rule="C12.3"):
     Lo, Li = s.Lo, s.Li
     allowed = {s.res_var}
     bad = []
-    for t in C02._sub(_lazy_norm(s, rec_t)):
+    norm = _lazy_norm(s, rec_t)
+    # a carried variable in a *value* position is a value taken from an earlier iteration; one that only decides between values
+    # (`if game_name not in games_without_solution`) is control state like the had-solution flag
+    in_values = set()
+
+    def leaves(x, d=0):
+        if x[0] == "ite" and d < 40:
+            leaves(x[2], d + 1)
+            leaves(x[3], d + 1)
+        elif x[0] == "dict":
+            for _, v in x[1]:
+                leaves(v, d + 1)
+        else:
+            for y in C02._sub(x):
+                if y[0] == "acc":
+                    in_values.add(y)
+    leaves(norm)
+    control_only = []
+    for t in C02._sub(norm):
         if t[0] == "acc" and t[1] in (Li.id, Lo.id) and t[2] not in allowed:
+            if t not in in_values and _flag_var(s) is None and t[2] not in ("name", "game"):
+                if t not in control_only:
+                    control_only.append(t)
+                continue
             # prev_game_had_solution legitimately carries from the pruned to the unpruned mode
             if t[2] == _flag_var(s):
                 continue
@@ -288,8 +310,41 @@ def r3_isolation(ctx, chk, rec_t, rule="C12.3"):
     if bad:
         chk.violation(rule, f.where(Li.node), "an entry records `%s`, whose value can come from an earlier game or mode (it is not re-established in every iteration): a failing game reports its predecessor's results" % show(bad[0]),
                       expected="defaults None/0 set inside the mode loop", found=show(bad[0]), construct="run_games loop-carried record value %s" % bad[0][2])
+    elif control_only and _carried_control_flaw(s, control_only, norm):
+        why, t0 = _carried_control_flaw(s, control_only, norm)
+        chk.violation(rule, f.where(Li.node), why, expected="what a game's entry records depends on that game only", found=show(t0)[:100],
+                      construct="run_games loop-carried record value %s" % t0[2])
+    elif control_only:
+        chk.undecided(rule, f.where(Li.node), "the carried variable `%s` decides what an entry records and is not recognised as the had-solution flag of the current game" % show(control_only[0]))
     else:
         chk.ok(rule, f.where(Li.node), "no recorded value has a reaching definition from an earlier game or mode (only the result dict and the had-solution flag are carried)")
+
+
+def _carried_control_flaw(s, control_only, norm):
+    """A carried variable that only decides what is recorded.  Two constructions are positively wrong:
+    (a) a scalar (flag, message) that is not re-established for every game: the first run of a game is decided by the outcome of
+        the game before it;
+    (b) a collection of game names consulted by prefix / substring matching: two games whose names share a prefix decide each
+        other's runs.
+    A collection consulted by exact membership of the current game's own key is per-game information: not judged here."""
+    Lo, Li = s.Lo, s.Li
+
+    def scalar_leaves(t, d=0):
+        if t[0] == "ite" and d < 30:
+            return scalar_leaves(t[2], d + 1) and scalar_leaves(t[3], d + 1)
+        return is_const(t) or t[0] in ("strcat", "fstr", "acc", "cmp", "not", "and", "or", "truthy") or (t[0] == "call" and t[1] in ("str", "bool"))
+    for t in control_only:
+        v = t[2]
+        upd = Li.update.get(v) if t[1] == Li.id else Lo.update.get(v)
+        carried_in = (t[1] == Lo.id) or (t[1] == Li.id and Li.init.get(v) == ("acc", Lo.id, v))
+        if carried_in and upd is not None and scalar_leaves(upd) and not is_const(Li.init.get(v, t) if t[1] == Li.id else t):
+            return ("whether a run is solved is decided by `%s`, which is not re-established for every game: after a game without solution the "
+                    "runs of the NEXT game are decided by that outcome" % show(t)), t
+        for x in C02._sub(norm):
+            if x[0] == "mcall" and x[2] in ("startswith", "endswith", "find", "index", "count", "rfind") and mentions(x, lambda y: y == t):
+                return ("whether a run is solved is decided by matching the entry name against the carried collection `%s` with `%s`: a game whose "
+                        "name merely begins / ends like another game's is treated as that game" % (show(t), x[2])), t
+    return None
 
 
 def _shared_mutables(ctx, chk, rule, f):
@@ -665,8 +720,8 @@ def r5_record(ctx, chk, rec_t, rule="C12.5"):
         okf = le is not None and le[2] == ("attr", ("e",), field) and le[1] == TRUE and le[3]
         if okf:
             chk.ok(rule, solve.where(), "solve()[%d] = [state.%s for state in state_list]" % (slot, field))
-        elif le is None:
-            chk.undecided(rule, solve.where(), "solve()[%d] is `%s`: not resolved to a list over the states" % (slot, show(t)[:100]))
+        elif le is None or mentions(le[2], lambda x: x[0] in ("mcall", "apply", "res", "compr")):
+            chk.undecided(rule, solve.where(), "solve()[%d] is `%s`: not resolved to a list of one field over the states" % (slot, show(t)[:100]))
         else:
             chk.violation(rule, solve.where(), "solve()[%d] is `%s`; the report labels it as the per-state %s" % (slot, show(t)[:100], field), expected="[state.%s ...]" % field,
                           found=show(t)[:120], construct="solve() slot %d field" % slot)
